@@ -195,6 +195,35 @@ def check_config(ctx, F, tag):
             ok = comutated(b, bi, muts)
             ctx.ob("C05.R3.int-vector-len-data", "%s|len#%d%s" % (b.name, k, tag), loc(st["sp"]), ok, "co-mutation",
                    "store to IntVector.len %s a length-changing call on IntVector.data on the same path" % ("is accompanied by" if ok else "is NOT accompanied by"))
+    # items enter IntVector.data only through the masking writers; word-level fills are zero fills
+    from effects import rooted_mut_refs
+    nm = 0
+    for b in F.all_bodies():
+        f = F.fns.get(b.name, [{}])[0]
+        if f.get("impl_self") != IV and not b.name.startswith("int_vector::IntVector::"):
+            continue
+        if b.nargs < 1 or not b.local_ty(1).startswith("&mut"):
+            continue
+        holders = rooted_mut_refs(b, 1, by_ref=True)
+        for bi, t in b.calls():
+            if not t["args"]:
+                continue
+            q = operand_place(t["args"][0])
+            if q is None or q["p"] or q["l"] not in holders or q["l"] == 1 or not b.local_ty(q["l"]).startswith("&mut"):
+                continue
+            if self_path(b.term_of_operand(t["args"][0])) != ["data"]:
+                continue
+            nm += 1
+            meth = callee_name(t).split("::")[-1]
+            ok = meth in ("push_int", "pop_int", "set_int", "clear", "reserve")
+            detail = "self.data.%s(..)" % meth
+            if meth == "resize":
+                fill = b.term_of_operand(t["args"][2])
+                ok = m(Const(0), fill)
+                detail = "self.data.resize(_, %s): a word-level fill of an integer vector must be the constant `false` (items of width > 1, and values wider than the width, are not bit fills)" % tstr(fill)
+            ctx.ob("C05.R3.int-vector-data-writers", "%s|%s%s" % (b.name, meth, tag), loc(t["sp"]), ok, "who-may-mutate", detail, nontrivial=meth == "resize")
+    ctx.count("int-vector-data-mutations" + tag, nm)
+    ctx.floor("int-vector-data-mutations" + tag, 6)
     ctx.count("int-vector-len-stores" + tag, n)
     ctx.floor("int-vector-len-stores" + tag, 4)
     pk = F.body("<int_vector::IntVector as ops::Pack>::pack")
